@@ -349,8 +349,8 @@ func c08Histories(run *vl.Run, depth int) {
 						interrupted = true
 					}
 				case o.n == -2:
-					if cur == o.pos && len(got) > 0 && !exhausted {
-						// changing the PV in the middle of an iteration is not a documented use: skip sequence
+					if cur >= 0 && len(got) > 0 && !exhausted {
+						// changing the PV in the middle of an iteration (of either position) is not a documented use: skip sequence
 						bad = "skip"
 					}
 					mg.SetPvMove(first[o.pos])
